@@ -194,7 +194,9 @@ def dump_for_tree_op(rng, variants=VARIANTS, arches=None):
     v = pick(rng, variants)
     a = pick(rng, arches)
     base = pick(rng, ["%s/%s/os" % (v, a), "%s/%s/os/" % (v, a), "%s/%s" % (v, a), "%s/%s/o" % (v, a), "elsewhere", "", "%s/%s/os//" % (v, a),
-                      "os", a, "%s/os" % a, "compose", "compose/%s" % v, "GPL", "/%s/%s/os" % (v, a)])
+                      "os", a, "%s/os" % a, "compose", "compose/%s" % v, "GPL", "/%s/%s/os" % (v, a),
+                      # ...exactly a stored file path (with and without trailing slashes), a stored path plus one character
+                      "%s/%s/os/GPL" % (v, a), "%s/%s/os/GPL/" % (v, a), "README", "README//", "%s/%s/osx" % (v, a), "%s/%s/os/GPLx" % (v, a)])
     return {"op": "dump_for_tree", "variant": v, "arch": a, "basepath": base}
 
 
